@@ -134,7 +134,7 @@ func allAlternatives(node interface{}) []alt {
 			a = append(a, alt{"empty", []interface{}{}}, alt{"retype:list-of-null", []interface{}{nil}}, alt{"retype:list-of-string", []interface{}{"x"}})
 		}
 	case string:
-		a = append(a, alt{"retype:map", map[string]interface{}{}}, alt{"retype:list", []interface{}{}}, alt{"retype:integer", 12345}, alt{"retype:bool", true})
+		a = append(a, alt{"retype:map", map[string]interface{}{}}, alt{"retype:list", []interface{}{}}, alt{"retype:integer", 12345}, alt{"retype:bool", true}, alt{"value:other-string", "Other-Value_x"})
 		if x != "" {
 			a = append(a, alt{"empty", ""})
 		}
